@@ -128,11 +128,21 @@ func (w *vWorld) addGroup(o NodeGroupOptions, asgMin, asgMax, extraDesired int64
 // addNode adds a node of the given group. class / cordon / annotation are the
 // pre-scan snapshot; ages are seconds before T0.
 func (w *vWorld) addNode(g int, class int, cordoned bool, annot int, taintAge, createAge int64, member bool) *vNode {
-	idx := len(w.nodes)
+	idx := 0
+	for _, m := range w.nodes {
+		if m.group == g {
+			idx++
+		}
+	}
+	// single-group worlds keep the short names n0, n1, ...; with several groups
+	// the name carries the group so that it does not depend on the other groups
 	name := "n" + strconv.Itoa(idx)
+	if g > 0 || len(w.groups) > 1 {
+		name = "g" + strconv.Itoa(g) + "n" + strconv.Itoa(idx)
+	}
 	o := w.groups[g]
 	n := &vNode{name: name, group: g, class: class, cordoned: cordoned, taintAge: taintAge, createAge: createAge, member: member}
-	n.instance = "i-" + strconv.Itoa(idx)
+	n.instance = "i-" + name
 	n.taintTs = w.base - taintAge
 	obj := &v1.Node{}
 	obj.Name = name
@@ -142,7 +152,7 @@ func (w *vWorld) addNode(g int, class int, cordoned bool, annot int, taintAge, c
 	if member {
 		obj.Spec.ProviderID = "aws:///az/" + n.instance
 	} else {
-		obj.Spec.ProviderID = "aws:///az/i-foreign" + strconv.Itoa(idx)
+		obj.Spec.ProviderID = "aws:///az/i-foreign" + name
 	}
 	switch annot {
 	case 1:
@@ -189,6 +199,7 @@ func (w *vWorld) addNode(g int, class int, cordoned bool, annot int, taintAge, c
 func (w *vWorld) addPod(g int, node int, daemon bool, cpu, mem int64, pending bool) *vPod {
 	idx := len(w.pods)
 	o := w.groups[g]
+	_ = idx
 	p := &vPod{group: g, node: node, daemon: daemon, cpu: cpu, mem: mem, pending: pending}
 	obj := &v1.Pod{}
 	obj.Name = "p" + strconv.Itoa(idx)
